@@ -589,6 +589,40 @@ func generate() {
 		}
 	}
 
+	// ---- (5d) the legacy .fav4 migration: boards and lines, removed entries at every position
+	{
+		f4 := func(items []*spec) { do(strings.TrimSpace("fav4t " + fmtTree(items))) }
+		for _, l := range levels(1, 3) {
+			n := len(l)
+			f4(materialize(l))
+			for pos := 0; pos < n; pos++ {
+				for _, a := range []uint8{0, 2} {
+					items := materialize(l)
+					items[pos].attr = a
+					f4(items)
+				}
+			}
+		}
+		nR := 40
+		if th {
+			nR = 1500
+		}
+		for i := 0; i < nR; i++ {
+			budget := 60
+			f4(randItemsM(r, 1, 1+r.Intn(30), &budget, true, false))
+		}
+		// recorded, not judged: a folder entry cannot be migrated; no count guard on this path
+		f4([]*spec{board(0), folderE(0), line(0)})
+		f4([]*spec{folder(0, []*spec{board(0)})})
+		base := validImage([]*spec{board(0), {kind: 'B', attr: 0, bid: 2}, line(0), board(2)})[2:]
+		for l := 0; l <= len(base); l++ {
+			do("fav4 " + hx.Hex(base[:l]))
+		}
+		for _, h := range [][]byte{{0xff, 0xff, 0, 0}, {0, 0, 0xff, 0}, {0, 0x80, 0, 0}, {1, 0, 0x7f, 0x7f}} {
+			do("fav4 " + hx.Hex(h))
+		}
+	}
+
 	// ---- (5c) write errors in the middle of a save: EFBIG at every offset of the new image
 	{
 		titled := func(i int, title string, sub []*spec) *spec {
